@@ -80,6 +80,7 @@ func WorkerMain(id, tier string, shard, n int, out string) {
 		os.Exit(2)
 	}
 	c := NewCtx(id, tier, seedFromEnv(), shard, n)
+	c.PartialPath = out + ".partial"
 	StartWatchdog(c, out)
 	ck.Run(c)
 	b, err := json.Marshal(c.Result())
@@ -130,6 +131,7 @@ func CheckMain(id, tier string) int {
 
 	results := make([]*WorkerResult, n)
 	crashed := make([]string, n)
+	partial := make([][]*Violation, n)
 	var wg sync.WaitGroup
 	for i := 0; i < n; i++ {
 		wg.Add(1)
@@ -161,11 +163,20 @@ func CheckMain(id, tier string) int {
 				}
 			}
 			lf.Close()
+			b, rerr := os.ReadFile(out)
+			if timedOut || err != nil || rerr != nil {
+				// what the worker had found before it was stopped or died
+				if pb, perr := os.ReadFile(out + ".partial"); perr == nil {
+					var vs []*Violation
+					if json.Unmarshal(pb, &vs) == nil {
+						partial[i] = vs
+					}
+				}
+			}
 			if timedOut {
 				crashed[i] = fmt.Sprintf("TIMEOUT worker %d/%d stopped after %s without finishing", i, n, deadline)
 				return
 			}
-			b, rerr := os.ReadFile(out)
 			if err != nil || rerr != nil {
 				lg, _ := os.ReadFile(logf)
 				s := string(lg)
@@ -194,6 +205,13 @@ func CheckMain(id, tier string) int {
 	for i, r := range results {
 		if r == nil {
 			m.Exhaustive = false
+			for _, v := range partial[i] {
+				if o, ok := viol[v.Signature]; ok {
+					o.Count += v.Count
+				} else {
+					viol[v.Signature] = v
+				}
+			}
 			if strings.HasPrefix(crashed[i], "TIMEOUT") {
 				m.CapsHit = append(m.CapsHit, crashed[i])
 				fmt.Println("note:", crashed[i], "(reported as exhaustive:false, not as a violation)")
